@@ -36,6 +36,25 @@ type probeScalars struct {
 	mu        sync.Mutex
 }
 
+// ProbeCommon is embedded (anonymously) in probeEmb: the decoder walks into such members, so
+// the encoder has to write them (BestChecksums is meant to be used this way)
+type ProbeCommon struct {
+	Origin string `required:"true"`
+	Label  string
+	Count  int `control:"Common-Count"`
+}
+
+type probeEmb struct {
+	ProbeCommon
+	Extra string
+}
+
+type probeEmbPass struct {
+	control.Paragraph
+	ProbeCommon
+	Extra string
+}
+
 type probeMeta struct {
 	Str string
 	Num int
@@ -58,6 +77,9 @@ type probeLists struct {
 	ReqWords []string          `control:"Req-Words" required:"true"`
 	ReqNums  []int             `control:"Req-Nums" required:"true"`
 	ReqVers  []version.Version `control:"Req-Vers" delim:", " required:"true"`
+	// required members of custom type: written even when zero, and the zero value reads back
+	ReqVer  version.Version `control:"Req-Version" required:"true"`
+	ReqArch dependency.Arch `control:"Req-Arch" required:"true"`
 }
 
 type probePointers struct {
@@ -174,7 +196,7 @@ func dropFieldLines(text, field string) string {
 
 var specC09Scalars = Register(&Spec[ScalarsCase]{
 	Prop: "C09", Name: "scalars",
-	Rule: "values of a probe struct with string, int (full range), uint (full range incl. > MaxInt64), bool, renamed (control:\"X-Renamed\"), required (one possibly empty, one always empty), skipped (control:\"-\", on a string member and on a struct-kind member whose own members are named like document fields), unexported members (string, version.Version, sync.Mutex: neither written nor read), multiline:\"true\" and plain multi-line string fields; strings are single lines without surrounding blanks, multi-line texts are C08 line sequences. Oracle: Unmarshal(Marshal(x)) == x field by field (multi-line strings up to one trailing newline, skipped field stays zero); in the emitted paragraph optional fields with empty rendering are absent, required ones present; removing a required field's lines makes Unmarshal fail; three values (full, required-only, partial) marshalled as one slice read back as three values none of which carries a neighbour's fields. Non-trivial: >= 3 non-zero fields; distinct by value.",
+	Rule: "values of a probe struct with string, int (full range), uint (full range incl. > MaxInt64), bool, renamed (control:\"X-Renamed\"), required (one possibly empty, one always empty), skipped (control:\"-\", on a string member and on a struct-kind member whose own members are named like document fields), unexported members (string, version.Version, sync.Mutex: neither written nor read), multiline:\"true\" and plain multi-line string fields; strings are single lines without surrounding blanks, multi-line texts are C08 line sequences. Oracle: Unmarshal(Marshal(x)) == x field by field (multi-line strings up to one trailing newline, skipped field stays zero); in the emitted paragraph optional fields with empty rendering are absent, required ones present; removing a required field's lines makes Unmarshal fail; members of an anonymously embedded plain struct (required, optional, renamed) are written and read like the struct's own, also next to an embedded Paragraph; three values (full, required-only, partial) marshalled as one slice read back as three values none of which carries a neighbour's fields. Non-trivial: >= 3 non-zero fields; distinct by value.",
 	Check: func(c ScalarsCase, r *Recorder) error {
 		nz := 0
 		for _, s := range []string{c.Str, c.Renamed, c.Req, c.Multi, c.Text} {
@@ -284,6 +306,25 @@ var specC09Scalars = Register(&Spec[ScalarsCase]{
 		if ys[2].Str != x.Str || ys[2].Renamed != "" || ys[2].Num != 0 || ys[2].Multi != "" || !sameUpToTrailingNewline(ys[2].Text, x.Text) || ys[0].Str != x.Str || ys[0].Renamed != x.Renamed || ys[0].Num != x.Num {
 			return errf("three values written as %q read back as %+v", texts, ys)
 		}
+		// members of an anonymously embedded plain struct are members like any other
+		emb := probeEmb{ProbeCommon{Origin: "o" + c.Req, Label: c.Str, Count: c.Num}, c.Renamed}
+		etext, err := marshalToText(&emb)
+		if err != nil {
+			return errf("Marshal of a struct with an embedded plain struct failed: %v", err)
+		}
+		var emb2 probeEmb
+		if err := control.Unmarshal(&emb2, strings.NewReader(etext)); err != nil || emb2 != emb {
+			return errf("struct with an embedded plain struct %+v was written as %q and read back as %+v (err %v)", emb, etext, emb2, err)
+		}
+		var ep probeEmbPass
+		if err := control.Unmarshal(&ep, strings.NewReader(etext+"X-Unknown: kept\n")); err != nil {
+			return errf("Unmarshal(%q) into a struct with Paragraph and an embedded plain struct failed: %v", etext, err)
+		}
+		ep.Origin = "changed"
+		ptext, err := marshalToText(&ep)
+		if pp, perr := paraOfText(ptext); err != nil || perr != nil || pp.Values["Origin"] != "changed" || pp.Values["X-Unknown"] != "kept" {
+			return errf("after setting the embedded struct's Origin to \"changed\" the struct marshals as %q (err %v)", ptext, err)
+		}
 		for _, req := range []string{"Req", "Req-Empty"} {
 			var z probeScalars
 			if err := control.Unmarshal(&z, strings.NewReader(dropFieldLines(text, req))); err == nil {
@@ -317,6 +358,7 @@ type ListsCase struct {
 	ReqWords                    []string
 	ReqNums                     []int
 	ReqVers                     []string
+	ReqVer, ReqArch             string // "" = the zero value
 }
 
 func genWord(t *rapid.T, label string) string {
@@ -400,6 +442,18 @@ func genListsCase(t *rapid.T) ListsCase {
 	for i := rapid.IntRange(0, 2).Draw(t, "nreqvers"); i > 0; i-- {
 		c.ReqVers = append(c.ReqVers, genWellFormedCore(t, "reqver").canonical())
 	}
+	if rapid.Bool().Draw(t, "hasReqVer") {
+		c.ReqVer = genWellFormedCore(t, "reqver1").canonical()
+	}
+	if rapid.Bool().Draw(t, "hasReqArch") {
+		c.ReqArch = genArchName(t, "reqarch")
+	}
+	// a blank-separated list is separated by blanks, tabs and newlines - not by every rune Unicode
+	// calls a space
+	if len(c.Words) > 0 && rapid.IntRange(0, 5).Draw(t, "nbsp") == 0 {
+		i := rapid.IntRange(0, len(c.Words)-1).Draw(t, "nbspAt")
+		c.Words[i] = c.Words[i] + rapid.SampledFrom([]string{"\u00a0", "\u3000", "\u2003", "\u0085"}).Draw(t, "nbspR") + "x"
+	}
 	return c
 }
 
@@ -417,7 +471,7 @@ func strSliceEq(a, b []string) bool {
 
 var specC09Lists = Register(&Spec[ListsCase]{
 	Prop: "C09", Name: "lists",
-	Rule: "values of a probe struct with []string (default blank delimiter; delim \", \" with elements containing single blanks; delim \",\" + strip \" \"; newline-delimited multiline list), []int, version.Version, dependency.Dependency (canonical C04 renderings incl. substvars), dependency.Arch, []dependency.Arch, []MD5FileHash and multiline []SHA256FileHash, and three required lists ([]string, []int, []version.Version with delim \", \"); list lengths 0..5. Oracle: Unmarshal(Marshal(x)) == x field by field (nil == empty slice; versions by parts; dependencies structurally; arches by triple; file hashes by (algorithm, hash, size, name)); empty lists and zero custom values are omitted, required lists are written even when empty and an empty one reads back as an empty list. Non-trivial: >= 3 non-zero fields of >= 3 kinds; distinct by value.",
+	Rule: "values of a probe struct with []string (default blank delimiter; delim \", \" with elements containing single blanks; delim \",\" + strip \" \"; newline-delimited multiline list), []int, version.Version, dependency.Dependency (canonical C04 renderings incl. substvars), dependency.Arch, []dependency.Arch, []MD5FileHash and multiline []SHA256FileHash, three required lists ([]string, []int, []version.Version with delim \", \") and two required members of custom type (version, architecture; zero in half of the cases); one blank-separated list in six carries an element with NBSP, U+3000, U+2003 or NEL inside; list lengths 0..5. Oracle: Unmarshal(Marshal(x)) == x field by field (nil == empty slice; versions by parts; dependencies structurally; arches by triple; file hashes by (algorithm, hash, size, name)); empty lists and zero custom values are omitted, required lists are written even when empty and an empty one reads back as an empty list. Non-trivial: >= 3 non-zero fields of >= 3 kinds; distinct by value.",
 	Check: func(c ListsCase, r *Recorder) error {
 		kinds := 0
 		for _, l := range [][]string{c.Words, c.Commas, c.Loose, c.Lines, c.Archs} {
@@ -447,6 +501,20 @@ var specC09Lists = Register(&Spec[ListsCase]{
 				return nil
 			}
 			x.ReqVers = append(x.ReqVers, v)
+		}
+		if c.ReqVer != "" {
+			v, err := version.Parse(c.ReqVer)
+			if err != nil {
+				return nil
+			}
+			x.ReqVer = v
+		}
+		if c.ReqArch != "" {
+			a, err := dependency.ParseArch(c.ReqArch)
+			if err != nil {
+				return nil
+			}
+			x.ReqArch = *a
 		}
 		if len(c.ReqWords) == 0 || len(c.ReqNums) == 0 || len(c.ReqVers) == 0 {
 			r.Count("empty-required-list", 1)
@@ -501,7 +569,7 @@ var specC09Lists = Register(&Spec[ListsCase]{
 		has := func(k string) bool { _, ok := para.Values[k]; return ok }
 		present := map[string]bool{"Words": len(c.Words) > 0, "Commas": len(c.Commas) > 0, "Loose-List": len(c.Loose) > 0, "Lines": len(c.Lines) > 0,
 			"Version": c.Ver != "", "Depends": c.Dep != "", "Architecture": c.Arch != "", "Arch-List": len(c.Archs) > 0, "Files": len(c.MD5s) > 0, "Checksums-Sha256": len(c.SHA256s) > 0, "Num-List": len(c.Nums) > 0,
-			"Req-Words": true, "Req-Nums": true, "Req-Vers": true}
+			"Req-Words": true, "Req-Nums": true, "Req-Vers": true, "Req-Version": true, "Req-Arch": true}
 		for k, want := range present {
 			if has(k) != want {
 				return errf("field %q present=%v, want %v in %q", k, has(k), want, text)
@@ -545,6 +613,9 @@ var specC09Lists = Register(&Spec[ListsCase]{
 		}
 		if !strSliceEq(used.ReqWords, c.ReqWords) || len(used.ReqNums) != len(c.ReqNums) || (len(c.Words) > 0 && !strSliceEq(used.Words, c.Words)) || (len(c.Archs) > 0 && len(used.Archs) != len(c.Archs)) {
 			return errf("decoding %q into a variable that held lists before gives Words %q Req-Words %q Req-Nums %v Archs %v: old elements survive", text, used.Words, used.ReqWords, used.ReqNums, used.Archs)
+		}
+		if y.ReqVer != x.ReqVer || y.ReqArch != x.ReqArch {
+			return errf("required custom-type members changed: wrote %+v / %#v as %q, read %+v / %#v", x.ReqVer, x.ReqArch, text, y.ReqVer, y.ReqArch)
 		}
 		if !strSliceEq(y.ReqWords, c.ReqWords) {
 			return errf("required string list changed: wrote %q as %q, read %q", c.ReqWords, text, y.ReqWords)
